@@ -1,7 +1,7 @@
 (** Top level of the executable model: compile (prelude once, then a main program) and run. *)
 From Coq Require Import ZArith Bool List.
 From JaqV Require Import Base.Bytes Base.Stream Val.Num Val.Val Val.Err Core.Syntax Core.Compile Core.Natives
-  Core.Run Json.Write Std.Natives.
+  Core.Run Json.Write Std.Natives Fmts.Natives.
 Import ListNotations.
 
 Definition cfuel : nat := 4000.
@@ -20,7 +20,7 @@ Definition compile_main (natives : list (bytes * list bool)) (globals : list byt
   {| p_defs := c_defs s; p_main := t; p_errs := c_errs s |}.
 
 Definition run_main (fuel : nat) (p : program) (globals : list val) (input : val) : str val :=
-  run display std_run (p_defs p) fuel (p_main p) {| vars := rev (map BVar globals); labels := 0 |} input.
+  run display all_run (p_defs p) fuel (p_main p) {| vars := rev (map BVar globals); labels := 0 |} input.
 
 Definition run_take (fuel : nat) (limit : nat) (p : program) (globals : list val) (input : val)
   : list val * option fin :=
